@@ -506,8 +506,8 @@ func (t *tr) ghostInit(R string, heaps map[string]string, elem types.Type, ref s
 	name := types.TypeString(elem, nil)
 	switch name {
 	case "bytes.Buffer":
-		if _, ok := t.eng.specs.Ghosts["bufseq"]; ok {
-			t.assume(R, fmt.Sprintf("(= (select %s %s) seq_empty)", t.H(heaps, "G_bufseq"), ref))
+		if _, ok := t.eng.specs.Ghosts["stream"]; ok {
+			t.assume(R, fmt.Sprintf("(= (select %s %s) seq_empty)", t.H(heaps, "G_stream"), ref))
 		}
 	}
 }
